@@ -123,7 +123,7 @@ class G:
             return ['%swrite(\'%s\');' % (ind, self.r.choice(['a', 'Z', '.', '\\n', '\\x00', '\\xff', '\\\\', "\\'"]))]
         if self.in_try and self.r.random() < (0.3 if self.in_try == 'stop' else 0.18):
             k = self.r.random()
-            if k < 0.15 or self.in_try == 'stop': return ['%s!is_defeat();' % ind]
+            if k < (0.4 if self.in_try == 'stop' else 0.15): return ['%s!is_defeat();' % ind]
             conds = [self.cmp(self.r.randint(0, 1)) for _ in range(self.r.randint(1, 3))]
             conds = [c for c in conds if c not in ('true', 'false')] or [self.r.choice(['true', 'false'])]
             return ['%s!truth_is_defeat(%s);' % (ind, ' or '.join(conds))]
